@@ -227,6 +227,27 @@ def run_level(ctx, ss):
                           dict(dur=dur, dt=dt, sizes=sizes[:8], expected=want[:8]))
 
 
+def large_removal(ctx, ss):
+    """remove_uids on a large persistent edge list with many agents removed at once (NumPy switches algorithms with size):
+    exactly the edges with a removed endpoint disappear, the others keep their order."""
+    rng = ctx.rng
+    for rep in range(ctx.n(4, 30)):
+        n = rng.choice([300, 500, 800]); ne = rng.choice([1500, 3000, 6000]); k = rng.choice([25, 60, 150])
+        p1 = np.array([rng.randrange(n) for _ in range(ne)]); p2 = np.array([rng.randrange(n) for _ in range(ne)])
+        beta = np.arange(ne, dtype=float)          # tags each edge
+        net = ss.Network(p1=p1.copy(), p2=p2.copy(), beta=beta.copy())
+        gone = np.array(rng.sample(range(n), k))
+        net.remove_uids(ss.uids(gone))
+        keep = ~(np.isin(p1, gone) | np.isin(p2, gone))
+        ctx.count(('large-removal', n, ne, k), nontrivial=True); ctx.dist('large removal')
+        got = np.asarray(net.edges.beta, dtype=float)
+        if not np.array_equal(got, beta[keep]):
+            lost = sorted(set(beta[keep]) - set(got)); kept = sorted(set(got) - set(beta[keep]))
+            what = (f'{len(lost)} edges between two remaining agents were deleted (e.g. edge ({int(p1[int(lost[0])])}, {int(p2[int(lost[0])])}))' if lost
+                    else f'{len(kept)} edges with a removed endpoint survived' if kept else 'the surviving edges changed order')
+            ctx.violation(f'Network.remove_uids of {k} agents from {ne} edges over {n} agents: {what}', dict(n=n, n_edges=ne, n_removed=k, rep=rep))
+
+
 def run(ctx):
     ctx.translate(['Gen_Net'])
     ctx.build_props('C14')
@@ -239,6 +260,7 @@ def run(ctx):
                        'births+deaths, pregnancy+deaths}; non-trivial = sequence with an append / a run')
     op_level(ctx, ss)
     ctx.guard('run_level', run_level, ctx, ss)
+    ctx.guard('large_removal', large_removal, ctx, ss)
 
 
 def replay(ctx, rp):
